@@ -34,8 +34,9 @@ class Channel {
 
     bool operator >> (T &out) {
         if (queue_.empty()) {   //! 如果队列里没有，则等待
-            token_.push(sch_.getToken());
             do {
+                //! register before every wait: the sender takes the tokens out when it wakes us
+                token_.push(sch_.getToken());
                 sch_.wait();
                 if (sch_.isCanceled())
                     return false;
@@ -48,7 +49,9 @@ class Channel {
     }
 
     Channel& operator << (const T &value) {
-        if (queue_.empty() && !token_.empty()) {
+        //! wake every waiter (each one re-checks and registers again if it comes too late):
+        //! waking one only when the queue was empty lost the wake-up of the second waiter
+        while (!token_.empty()) {
             auto t = token_.front();
             token_.pop();
             sch_.resume(t);
